@@ -422,7 +422,18 @@ func init() {
 	})
 	register("C06", func(c *core.Ctx) {
 		asCheck(c, asPlan{prop: "C06", monitors: []string{"KillMon"}, mc: t3, gen: g3, ops: append(append([][2]string{{"sub", "A"}, {"sub", "B"}}, asOpsBasic...), asOpsWatch...),
-			rule: base + "Judged by KillMon."})
+			rule: base + "Judged by KillMon. Plus an ungated run in which a parent re-spawns its child under the same name the moment it is told of the child's termination."})
+		if c.IsBroken() {
+			return
+		}
+		st, err := runRespawnStress(core.Pick(c, 20000, 200000))
+		if err != nil {
+			c.Broken("respawn stress: %v", err)
+			return
+		}
+		res := ValidateTraces(c, "asmon", "KillMon", "KillMon.cfg", st, asDefaults)
+		res.Report(c, "KillMon")
+		c.Add("traces_validated_against_impl", int64(res.Validated))
 	})
 	register("C09", func(c *core.Ctx) {
 		asCheck(c, asPlan{prop: "C09", monitors: []string{"UnstuckMon"}, mc: t3, gen: g3, ops: asOpsBasic, directed: asConcurrentSiblingFailures,
